@@ -94,6 +94,9 @@ impl C14 {
             ("law-random-int", rnd),
             ("law-random-float", rnd),
             ("law-random-text", rnd / 2),
+            // what print writes to the real standard output of the shipped binary (the in-process families see the text
+            // through the capture hook): formats x arguments, and amounts of text around the sizes of output buffers
+            ("print-through-the-binary", if ctx.flavour == Flavour::Rel { (PRINT_FORMATS.len() * 5 + BIN_PRINTS) as u64 } else { 0 }),
         ])
     }
 
@@ -161,6 +164,24 @@ impl C14 {
     }
 }
 
+const BIN_PRINTS: usize = 24;
+
+/// programs whose printed text is long, has its newlines in odd places, or both
+fn binary_print_program(k: usize) -> String {
+    let n = [1usize, 100, 1023, 1024, 1025, 4095, 4096, 4097, 8192, 70_000][k % 10];
+    let body = "x".repeat(n);
+    match k / 10 {
+        0 => format!("print(\"{}\"); {}", body, n),
+        1 => format!("print(\"kop\\n{{}}|einde\", \"{}\"); {}", body, n),
+        _ => match k % 4 {
+            0 => "stel i = 0; zolang i < 5000 { i += 1; print(\"{} {}\", i, \"regel\") }; i".to_string(),
+            1 => format!("print(\"{{}}\\n{{}}\\n\", \"{}\", \"{}\"); 0", "é".repeat(700), "💖".repeat(300)),
+            2 => "print(\"a\\n\"); print(\"\"); print(\"\\n\\nb\"); print(\"{}\", \"\\n\"); 1".to_string(),
+            _ => format!("stel l = [{}]; print(\"{{}}\\n{{}} |einde\", lengte(l), l); 2", (0..600).map(|k| format!("{}.5", k)).collect::<Vec<_>>().join(", ")),
+        },
+    }
+}
+
 impl Check for C14 {
     fn id(&self) -> &'static str {
         "C14"
@@ -175,6 +196,22 @@ impl Check for C14 {
         self.text(ctx, idx).1
     }
     fn run_case(&mut self, ctx: &Ctx, idx: u64, st: &mut Stats) {
+        {
+            let (_, name, i) = self.fams(ctx).locate(idx);
+            if name == "print-through-the-binary" {
+                let n_fmt = (PRINT_FORMATS.len() * 5) as u64;
+                let text = if i < n_fmt {
+                    // the print-formats programs again
+                    let fi = self.fams(ctx).fams.iter().take_while(|f| f.0 != "print-formats").map(|f| f.1).sum::<u64>() + i;
+                    self.text(ctx, fi).1
+                } else {
+                    binary_print_program((i - n_fmt) as usize)
+                };
+                st.count("programs:print-through-the-binary");
+                super::binfile::compare_with_binary(&text, "print-through-the-binary", st);
+                return;
+            }
+        }
         let (fam, text) = self.text(ctx, idx);
         let (_, _, i) = self.fams(ctx).locate(idx);
         // under a memory checker the boxes are really released
